@@ -105,7 +105,7 @@ def run(ctx):
     ctx.rule = RULE
     ctx.assumptions = ASSUMPTIONS
     binary = build.build("bloch", "asan")
-    n = ctx.n(600, 15000)
+    n = ctx.n(2500, 40000)
     core.pmap(lambda i: check_case(ctx, binary, i), range(n))
     cov = ctx.extra.pop("_cov", set())
     ctx.extra["operator_type_coverage"] = sorted("/".join(map(str, c)) for c in cov)
